@@ -617,7 +617,11 @@ fn diff_cell(at: &str, e: &MCell, g: &MCell, out: &mut Vec<Disc>) {
             } else {
                 "formula-text"
             };
-            disc(out, format!("{}/{}", f, mode), format!("{}: model formula {:?}, decoded {:?}", at, truncate(ef, 120), truncate(gf, 120)));
+            if ef.contains('\r') && gf == ef.replace("\r\n", "\n").replace('\r', "\n") {
+                disc(out, "formula:cr/cr-becomes-lf", format!("{}: model formula {:?}, an XML reader sees {:?}", at, truncate(ef, 120), truncate(gf, 120)));
+            } else {
+                disc(out, format!("{}/{}", f, mode), format!("{}: model formula {:?}, decoded {:?}", at, truncate(ef, 120), truncate(gf, 120)));
+            }
         }
     }
 }
@@ -1560,8 +1564,14 @@ fn dirty_text() -> BoxedStrategy<String> {
 }
 
 fn strat_dirty(t: Tier) -> BoxedStrategy<Case> {
-    (strat_dirty_base(t), prop::collection::vec((dirty_text(), prop::option::weighted(0.3, dirty_text())), 0..6))
-        .prop_map(|(mut case, texts)| {
+    let dirty_formula = prop::sample::select(vec!["\"a\rb\"&A1", "\"a\r\nb\"", "\" lead\"&\"trail \"", "\"_x0041_\"", "A1+\n B2", "\"tab\there\""]).prop_map(|s| s.to_string());
+    (strat_dirty_base(t), prop::collection::vec((dirty_text(), prop::option::weighted(0.3, dirty_text())), 0..6), prop::collection::vec((1u32..4, 1u32..6, dirty_formula), 0..3))
+        .prop_map(|(mut case, texts, formulas)| {
+            if let Some(e) = case.extra.first_mut() {
+                for (col, row, f) in formulas {
+                    e.cells.push(CellSpec { col, row, value: ValueSpec::Number(Num(1.0)), formula: Some(f) });
+                }
+            }
             // comments of the case get texts (and some authors) from the dirty alphabet
             let mut it = texts.into_iter();
             'outer: for s in case.annot.sheets.iter_mut() {
@@ -1598,11 +1608,11 @@ fn strat_dirty_base(t: Tier) -> BoxedStrategy<Case> {
 
 fn subs() -> Vec<Box<dyn DynSub>> {
     vec![
-        Box::new(Sub { name: "cells", strategy: strat_cells, cases: (200, 6000), check, max_shrink_iters: 1500 }),
-        Box::new(Sub { name: "annot", strategy: strat_annot, cases: (120, 3000), check, max_shrink_iters: 1500 }),
-        Box::new(Sub { name: "rels", strategy: strat_rels, cases: (250, 6000), check, max_shrink_iters: 1500 }),
-        Box::new(Sub { name: "combined", strategy: strat_combined, cases: (150, 4000), check, max_shrink_iters: 1500 }),
-        Box::new(Sub { name: "dirty", strategy: strat_dirty, cases: (40, 800), check, max_shrink_iters: 1500 }),
+        Box::new(Sub { name: "cells", strategy: strat_cells, cases: (150, 4000), check, max_shrink_iters: 1500 }),
+        Box::new(Sub { name: "annot", strategy: strat_annot, cases: (120, 2000), check, max_shrink_iters: 1500 }),
+        Box::new(Sub { name: "rels", strategy: strat_rels, cases: (250, 4000), check, max_shrink_iters: 1500 }),
+        Box::new(Sub { name: "combined", strategy: strat_combined, cases: (150, 2500), check, max_shrink_iters: 1500 }),
+        Box::new(Sub { name: "dirty", strategy: strat_dirty, cases: (40, 600), check, max_shrink_iters: 1500 }),
     ]
 }
 
